@@ -41,7 +41,31 @@ def check(env, rep, tier):
         ir = find_body(prog, blockutil.HANDLER + "intercept_request")
         reach = ir is not None and any(x["id"] == body["id"] for x in reachable(prog, ir))
         rep.ob("C09.1", "reached", reach, "intercept_request no longer reaches the upload-block handler %s" % body["path"])
-        tr = Trace(prog, None, body=body, req_arg=req_arg)
+        es_b = find_body(prog, "block_handler::extending_splice")
+        negs_ = blockutil.find_negotiate(prog)
+
+        def setup_rej(tr_, I_, st_):
+            # who turned a block down: the bounded splice, the size negotiation or the encoder (measuring) - marked where it happens
+            def mk(tag):
+                def hook_(I__, ctx, outs):
+                    for s_, rv_ in outs:
+                        if isinstance(rv_, EnumV) and list(rv_.variants) == [1]:
+                            s_.ghost[("inj", "rejected-by:" + tag)] = True
+                return hook_
+            for b_, tag in ([(es_b, "splice")] if es_b is not None else []) + [(n_, "negotiation") for n_ in negs_]:
+                I_.return_hooks[b_["id"]] = mk(tag)
+                I_.no_join_bodies.add(b_["id"])
+            base_tb = I_.extra_models.get("packet::Packet::to_bytes")
+
+            def m_tb(I__, s_, call):
+                r = base_tb(I__, s_, call) if base_tb else None
+                for s2, v in r or ():
+                    if isinstance(v, EnumV) and list(v.variants) == [1]:
+                        s2.ghost[("inj", "rejected-by:encoder")] = True
+                return r
+            if base_tb is not None:
+                I_.extra_models["packet::Packet::to_bytes"] = m_tb
+        tr = Trace(prog, None, body=body, req_arg=req_arg, setup=setup_rej)
         site = {"file": tr.body["span"]["f"], "line": tr.body["span"]["l"], "fn": tr.body["path"]}
         I = tr.I
         rep.analysed.update(prog.bodies[b]["path"] for b in I.visited_bodies if b in prog.bodies)
@@ -117,6 +141,21 @@ def check(env, rep, tier):
         rep.ob("C09.1", "block1-always-acknowledged", bad_b1 == 0 and n_b1 >= 2,
                "a request carrying a Block1 option can leave the handler without a Block1 option on its reply (%d of %d paths): e.g. an upload "
                "that fits one block is not acknowledged" % (bad_b1, n_b1), site, sample={"rule": "C09.1", "paths_with_block1": n_b1})
+        # the handler turns an upload block down only where the bounded splice, the negotiation or the measuring encoder does:
+        # no test of its own on offsets / lengths (an out-of-window block is the splice's business, a block after an expired
+        # or abandoned upload continues from an empty buffer)
+        n_err, own_rej = 0, 0
+        for s, rv in tr.res:
+            if tr.ret_kind(rv) != {"err"}:
+                continue
+            n_err += 1
+            marks = set(k[1] for k in s.ghost if isinstance(k, tuple) and k[0] == "inj")
+            if not any(m.startswith("rejected-by:") for m in marks):
+                own_rej += 1
+        rep.ob("C09.1", "rejections-only-delegated", own_rej == 0 and n_err >= 2,
+               "the upload handler returns an error on %d of %d failing paths on which neither the bounded splice nor the size negotiation nor the "
+               "encoder rejected anything: a block is turned down by a test of the handler's own (e.g. 'offset beyond what is buffered')" % (own_rej, n_err), site,
+               sample={"rule": "C09.1", "error_paths": n_err})
         rep.ob("C09.1", "final-payload-is-buffer", good, "the payload delivered with the final block is not the value taken from the per-key buffer", site)
         rep.ob("C09.1", "splice-unconditional", ok["spliced"],
                "an upload block can be acknowledged (2.31) or completed without having been spliced into the per-key buffer", site)
